@@ -2,6 +2,4 @@
 #pragma once
 #include "c20_sig.hh"
 #include "c20_sig2.hh"
-namespace c20 {
-inline void run_enc(long &) {}
-}
+#include "c20_enc.hh"
